@@ -32,6 +32,25 @@ for wi := 0; wi < 3; wi++ {
 }
 `
 
+// c14EarlierDeep: in-script calls several frames deep, every frame inside a try statement, a loop at the bottom
+const c14EarlierDeep = `
+var we2
+we := func(n) {
+	try {
+		if n > 0 { return we2(n - 1) + 1 }
+		wx := 0
+		for wj := 0; wj < 60; wj++ { wx++ }
+		return wx
+	} catch e {
+		return -1
+	} finally {
+		n = 0
+	}
+}
+we2 = we
+log(we(6), we(3))
+`
+
 // Script-level reference implementations of the stdlib functions that call a script function back from Go
 // (on a pooled child VM): same results, same number and order of callback invocations, errors propagate.
 const c14Refs = `
@@ -150,8 +169,12 @@ func c14Run(rc *sim.RunCtx) {
 	pollute := t.Bool(1, 3)
 	earlier := t.Bool(1, 3)
 	var earlierBC *ugo.Bytecode
+	earlierAbortAt := int64(0)
+	if earlier && t.Bool(1, 2) {
+		earlierAbortAt = int64(5 + t.Draw(700))
+	}
 	if earlier {
-		earlierBC = mustCompile(sim.PreludeCall+c14Warmup+"return wm.get()\n", mm, false)
+		earlierBC = mustCompile(sim.PreludeCall+c14EarlierDeep+c14Warmup+"return wm.get()\n", mm, false)
 		rc.Probe("root-vm-ran-another-script-before")
 	}
 	run := func(bc *ugo.Bytecode, policy int) (c08Result, *sim.World, *sim.SimPool) {
@@ -176,7 +199,15 @@ func c14Run(rc *sim.RunCtx) {
 			// this one with SetBytecode (no Clear)
 			pw := sim.NewWorld(&sim.WorldSpec{Name: "earlier", Pooled: []bool{true, false, true, true, false, true, true, false, true, true, false, true}, Repeat: make([]int, 12)}, nil)
 			vm = ugo.NewVM(earlierBC).SetRecover(true)
-			vm.Run(pw.Globals)
+			if earlierAbortAt > 0 {
+				// ... and that run was aborted at a drawn instruction (inside its try statements and callbacks)
+				asc := &sim.StepCounter{Cap: 5000, AbortAt: earlierAbortAt}
+				ar := asc.Install()
+				vm.Run(pw.Globals)
+				ar()
+			} else {
+				vm.Run(pw.Globals)
+			}
 			vm.SetBytecode(bc)
 			sc.Steps = 0
 		}
